@@ -66,7 +66,14 @@ class SupervisionMonitor:
                 how = ev[0] + ("/" + ev[1] if len(ev) > 1 else "")
                 viols.append(self.v(world, "no-reconnect", f"{hist}: the link is down, the user did not ask for it, and neither a connect attempt nor a retry timer is pending", how))
             if ev[0] in ("lost", "send-fail") and not loop.live_requests():
-                viols.append(self.v(world, "no-immediate-reconnect", f"{hist}: no reconnect attempt follows the loss ({ev[1]})", ev[1]))
+                how = ev[1] if len(ev) > 1 else ev[0]
+                viols.append(self.v(world, "no-immediate-reconnect", f"{hist}: no reconnect attempt follows the loss ({how})", how))
+        # a link that the library itself gives up (watchdog) must have been silent for about two reconnect timeouts
+        for link, cause, when in world.library_drops:
+            quiet = when - max([link.t_made] + link.t_data)
+            self.stats["library_drops_judged"] += 1
+            if quiet < 2 * world.R - 1e-6:
+                viols.append(self.v(world, "healthy-link-dropped", f"{hist}: the library dropped a link at t={when} that had been up / heard from only {quiet:.2f} s before (reconnect timeout {world.R})"))
         # retry interval: the attempt after a failed one starts exactly R after the failure
         if world.stopped:
             self.check_quiet_after_stop(world, viols, hist)
